@@ -418,6 +418,22 @@ func runC17Line(rt *rapid.T) {
 				time.Sleep(25 * time.Millisecond) // the line engine picks the request up and writes its ENQ
 				synctest.Wait()
 			}
+			if i >= after && rapid.IntRange(0, 2).Draw(rt, "corruptInYield") == 0 {
+				// the master's block arrives damaged INSIDE the yield (bad checksum, or a shortened length
+				// character with the rest of the block left on the line): NAK, and the retransmission
+				// follows; whatever the receive path does with its buffers meanwhile, the library's own
+				// postponed block must still go out unchanged afterwards
+				raw := b.Bytes()
+				if rapid.Bool().Draw(rt, "shortLen") && raw[0] > 12 {
+					raw[0] = 10 + byte(rapid.IntRange(0, 2).Draw(rt, "shortBy"))
+				} else {
+					raw[len(raw)-1] ^= 0x55
+				}
+				if res := p.SendRaw(raw, nil); res.Err != nil || res.Resp != e4.NAK {
+					fail("a damaged block sent inside the library's yield was answered %+v, want NAK", res)
+				}
+				cls = append(cls, "c17l:duplex:corrupt-in-yield")
+			}
 			res := p.SendRaw(b.Bytes(), nil)
 			if res.Err != nil || !res.Granted || res.Resp != e4.ACK {
 				fail("inbound block %d of %d (the library's own send started after block %d): %+v", i+1, len(inBlocks), after, res)
